@@ -326,6 +326,8 @@ def run(ctx, selftest=False):
     # because of the sampling calls made on the prior
     from .. import history
     history.check(ctx, "prior", {"C18"}, ("C18.", "H."), selftest=selftest, cap=16 if ctx.tier == "quick" else None)
+    # ... and a call the sampler must refuse is refused whatever the same TheJoker accepted before, and leaves it as it was
+    history.check(ctx, "sampler", {"C18"}, ("C18.", "H."), cap=30 if ctx.tier == "quick" else None)
     if selftest or not quick:
         import copy
         a = copy.deepcopy([t for t in traces if t["kind"] == "prior" and t["raised"]][0]); a["id"] = "st-1"; a["raised"] = False
